@@ -8,9 +8,13 @@
 (*   [id, kind |-> "probe" | "prog" | "control", cfg, names, route,        *)
 (*    pre, shadow (what the script bound itself first), hist (process      *)
 (*    history: "" sandbox first | "after" an unsandboxed interpreter),     *)
-(*    inotify, evs |-> << [shape, out, events |-> <<observed events>>] >>] *)
+(*    inotify, evs |-> << [shape, out, events |-> <<observed events>>,     *)
+(*                          host |-> state of the host after the probe] >>]  *)
 (* The oracle is the property itself, independent of any table: in a       *)
-(* sandboxed configuration the observed event set of EVERY probe is empty. *)
+(* sandboxed configuration the observed event set of EVERY probe is empty  *)
+(* and the host is still there afterwards (Sandbox!HostStates: it answered, *)
+(* or the harness stopped it, or the machine starved it -- never exit or   *)
+(* fatal; the record of a probe must tell one story: HostConsistent).      *)
 (* A non-empty set is explained only by a named deviation enabled in       *)
 (* VERIF_DEVS (verdict known:<id>); anything else is "bad" at that event.  *)
 (* Cases of the unsandboxed control configuration are judged the other way *)
@@ -58,7 +62,7 @@ TInit == /\ ci \in 1..Len(Cases) /\ pos = 1 /\ verdict = "run" /\ dev = 0
 TStep ==
     /\ verdict = "run" /\ pos <= Len(Evs)
     /\ LET evset == Elems(Evs[pos].events)
-           wellformed == evset \subseteq Events
+           wellformed == evset \subseteq Events /\ HostConsistent(Evs[pos].host, evset)
            d == IF evset = {} \/ IsControl THEN 0 ELSE Explains(Case, evset)
        IN IF wellformed /\ (evset = {} \/ IsControl \/ d # 0)
           THEN /\ pos' = pos + 1
@@ -68,10 +72,10 @@ TStep ==
                /\ PrintT(<<"VERDICT", Case.id, "bad", pos>>)
 
 (* the control: every capability of a known primitive must be visible through its event *)
-ControlCap(n) == IF Expands(n) # {} THEN UNION {PrimCap(m) : m \in Expands(n)} ELSE PrimCap(n)
+ControlShows(n) == IF Expands(n) # {} THEN UNION {ShownBy(m) : m \in Expands(n)} ELSE ShownBy(n)
 Observed == UNION {Elems(Evs[k].events) : k \in 1..Len(Evs)}
 Blind == /\ IsControl /\ Case.route = "direct" /\ Len(Case.names) = 1
-         /\ ~({EventOf(cap) : cap \in ControlCap(Case.names[1])} \subseteq Observed)
+         /\ ~(ControlShows(Case.names[1]) \subseteq Observed)
 
 TDone ==
     /\ verdict = "run" /\ pos > Len(Evs)
